@@ -256,12 +256,32 @@ def _classify_value(eng, fd, pl, bi, line, depth):
     return Gate('match', 'value', [fd.read_place(pl)], body.path, bi, line)
 
 
-def accept_blocks(fd):
+def accept_blocks(fd, want=True):
     """blocks that build the success value: `_0 = Ok(..)`, `_0 = Some(..)`, `_0 = true`, or `_0 = <local call>`
-    (tail delegation).  Returns list of (block, kind, call_or_None)."""
+    (tail delegation).  Returns list of (block, kind, call_or_None).  With want=False (only meaningful for functions returning bool):
+    the blocks that build `false` - used when a caller proceeds on the negative answer of a predicate (`if x.is_bad() { return Err }`)."""
     body = fd.body
     out = []
     ret_ty = body.local_ty(0)
+    if not want:
+        if ret_ty != 'bool':
+            return []
+        for bi, blk in enumerate(body.blocks):
+            if blk['cleanup']:
+                continue
+            for s in blk['stmts']:
+                if s['k'] == 'assign' and s['dst']['l'] == 0 and not s['dst'].get('p'):
+                    rv = s['rv']
+                    if rv['k'] == 'use' and rv['op']['k'] == 'const' and rv['op'].get('int') == '0':
+                        out.append((bi, 'false', None))
+                    elif rv['k'] == 'use' and rv['op']['k'] in ('copy', 'move'):
+                        out.append((bi, 'boolvar', rv['op']['pl']))
+                    elif rv['k'] == 'unop' and rv['op'] == 'Not' and rv['a']['k'] in ('copy', 'move'):
+                        out.append((bi, 'boolvar', rv['a']['pl']))
+            t = blk['term']
+            if t['k'] == 'call' and t['dst']['l'] == 0 and not t['dst'].get('p') and 'panic' not in (t.get('callee') or ''):
+                out.append((bi, 'tail', t))
+        return out
     for bi, blk in enumerate(body.blocks):
         if blk['cleanup']:
             continue
@@ -322,11 +342,13 @@ class GateAnalysis:
             out.extend(self._flatten(s))
         return out
 
-    def _lift_paths(self, fd, callee, args, dom, _stack, depth=0):
+    def _lift_paths(self, fd, callee, args, dom, _stack, depth=0, want=True):
         """accept paths of `callee` as gate lists in the terms of the calling body `fd` (arguments `args`).  A callee gate that inspects a
         Result / Option *parameter* is decided by the caller's argument: it is replaced by the classification of that argument here (and, when
         the argument comes from another local call, by that call's accept paths)."""
-        cps = self.accept_paths(callee, _stack)
+        cps = self.accept_paths(callee, _stack, want=want)
+        if not want and not cps:
+            cps = self.accept_paths(callee, _stack)      # not a predicate: no negative paths to speak of
         out = []
         for cp in cps:
             lifted = []
@@ -362,18 +384,19 @@ class GateAnalysis:
                 out.append(lifted + e)
         return out
 
-    def accept_paths(self, path, _stack=()):
+    def accept_paths(self, path, _stack=(), want=True):
         """list of accept paths of function `path`; each is a list of non-delegating Gates whose operand atom
         sets are in `path`'s own parameter terms.  One entry per (accept block x callee accept path)."""
-        if path in self._paths:
-            return self._paths[path]
+        ckey = path if want else (path, False)
+        if ckey in self._paths:
+            return self._paths[ckey]
         if path in _stack:
             return [{'block': -1, 'kind': 'rec', 'gates': []}]
         fd = self.eng.fndep(path)
         if fd is None:
             return [{'block': -1, 'kind': 'missing', 'gates': []}]
         res = []
-        for (bi, kind, extra) in accept_blocks(fd):
+        for (bi, kind, extra) in accept_blocks(fd, want):
             gs = self.block_gates(fd, bi)
             direct = [g for g in gs if g.kind != 'deleg']
             delegs = [g for g in gs if g.kind == 'deleg']
@@ -407,7 +430,7 @@ class GateAnalysis:
                         direct.append(g2)
             combos = [list(direct)]
             for dg in delegs:
-                lifted_alts = self._lift_paths(fd, dg.callee, dg.args, dg.dom, _stack + (path,))
+                lifted_alts = self._lift_paths(fd, dg.callee, dg.args, dg.dom, _stack + (path,), want=(dg.truth is not False))
                 if not lifted_alts:
                     lifted_alts = [[]]
                 new = []
@@ -419,7 +442,7 @@ class GateAnalysis:
                 combos = new[:256]
             for c in combos:
                 res.append({'block': bi, 'kind': kind, 'gates': c})
-        self._paths[path] = res
+        self._paths[ckey] = res
         return res
 
 
